@@ -58,11 +58,14 @@ Proof. vm_compute. reflexivity. Qed.
 
 (* ---- round 2: IFT patch-map guards ---- *)
 From FV Require Import C02.IftModel C02.IftProofs C02.IftSbs.
-(* the hypotheses of c02_ift_format1_guard hold of the feature map of font-test-data's feature_map_format1 fixture
-   (3 records, 4 entry records, width 2) *)
-Example f1_guard_hyp : Forall rec_ok [(1684826471, 400, 1); (1818847073, 384, 2); (1853189228, 301, 1)] /\
-  sumc [(1684826471, 400, 1); (1818847073, 384, 2); (1853189228, 301, 1)] * f1_width 400 * 2 <= 65535.
-Proof. split; [repeat constructor; cbn; lia|vm_compute; discriminate]. Qed.
+(* the hypothesis of c02_ift_format1_total holds of the feature map of font-test-data's feature_map_format1 fixture *)
+Example f1_total_hyp : Forall rec_ok [(1684826471, 400, 1); (1818847073, 384, 2); (1853189228, 301, 1)].
+Proof. repeat (constructor; [unfold rec_ok; cbn; lia|]). constructor. Qed.
+(* first_new_entry_index + i beyond u16 is skipped, not a trap (was finding 5 before /repo 9bc6adf) *)
+Example f1_first_new_overflow_skipped :
+  f1_intersect 65535 10 0 [0;1;2;3;0;1;2;3;0;1;2;3;0;1;2] [1;2;3] [0] 3
+               (Some [(1818847073, 65535, 2)]) [0;1;0;2;0;1;0;2] None = F1Ok [1; 2; 3; 65535].
+Proof. vm_compute. reflexivity. Qed.
 (* format 2: forty bare flag bytes decode to forty entries with ids 1..40; one more than the data holds is an error *)
 Example f2_bare : match f2_decode sbs_c14 3 40 41 (repeat 0 40) with F2Ok es => length es = 40%nat | _ => False end.
 Proof. vm_compute. reflexivity. Qed.
